@@ -545,9 +545,9 @@ def main(tier, seed, replay, jobs, scale):
         import json
         cases = [tuple(json.load(open(replay))["replay"]["case"])]
     else:
-        nd = int((40 if tier == "quick" else 80) * scale)
-        ns = int((24 if tier == "quick" else 80) * scale)
-        nt = int((3 if tier == "quick" else 10) * scale)
+        nd = int((40 if tier == "quick" else 300) * scale)
+        ns = int((24 if tier == "quick" else 300) * scale)
+        nt = int((3 if tier == "quick" else 30) * scale)
         cases = [("san", seed, i, tier) for i in range(ns)] + [("diff", seed, i, tier) for i in range(nd)] + [("term", seed, i, tier) for i in range(nt)]
     results = list(par.run_cases(dispatch, cases, jobs))
     par.absorb(run, results)
